@@ -1,5 +1,6 @@
 // qh: runs case batches against the real qcow2-rs library on SimFile.
 // Usage: qh <batch-file> <outdir>       observations go to stdout
+mod codec;
 mod exec;
 mod simfile;
 
@@ -312,6 +313,10 @@ struct Case {
 fn main() {
     std::panic::set_hook(Box::new(|_| {}));
     let args: Vec<String> = std::env::args().collect();
+    if args[1] == "codec" {
+        codec::run(&args[2]);
+        return;
+    }
     let batch = std::fs::read_to_string(&args[1]).expect("batch file");
     let outdir = args.get(2).cloned().unwrap_or_else(|| ".".to_string());
     let mut out = String::new();
